@@ -16,7 +16,7 @@ func profC01() spec.Profile {
 		MaxDepth: 4, MaxLen: 4,
 		WCmd: 30, WLabel: 7, WGoto: 5, WCondGoto: 3, WEnd: 4, WIf: 14, WWhile: 8, WInfWhile: 4, WDoWhile: 6, WBreak: 7, WContinue: 6, WSwitch: 6,
 		MaxLeaves: 1, PEmptyBody: 0.12, AfterJump: 0.5, PElse: 0.5, MaxElif: 2, MaxCases: 4, PDefault: 0.5, PEmptyCase: 0.2,
-		NoRedundantPar: true, PReuseOperand: 0.2, PCall: 0.06,
+		NoRedundantPar: true, PReuseOperand: 0.2, PCall: 0.06, PEndVariants: 0.2,
 	}
 }
 
